@@ -71,6 +71,14 @@ type Snip struct {
 	// snippets: the element templates with Mode "args" are built one after the other from ONE map (cleared and refilled
 	// for each of them), then the whole list is rendered
 	Share bool `json:"share,omitempty"`
+	// snippets: WHAT KIND of iter.Seq carries the parts.  "" = a pure sequence that can be ranged over any number of times
+	// (a slice); the others are legal iter.Seq values that can NOT: "chan" = the parts are received from a channel (what a
+	// second pass gets is what the first left), "once" = single-use (pulled from another iterator / a reader: every pass
+	// after the first gets nothing), "counter" = a generator closure that numbers what it produces with a counter it keeps
+	// across passes (each part is preceded by the part Block("<n>:"), n = how many it has produced so far).  The parts of a
+	// Snippets are what ONE pass over its sequence yields; the term is only built this way where it is rendered at most once
+	// (normalizeSeq), so every kind renders like the slice of its parts ("counter": with the numbers 1, 2, 3 ... in front).
+	Seq string `json:"seq,omitempty"`
 }
 
 // Mut is one later write to the caller's Args map: delete(m, N), or m[N] = S (S == nil: the nil interface)
@@ -93,6 +101,124 @@ func probeS(text string, panics bool) Snip {
 type recorder struct {
 	rendered   int      // renderings of probes
 	unexpected []string // renderings of probes bound to names that cannot be a placeholder of their template
+	seqPasses  int      // passes started over sequences that are not re-iterable (Snip.Seq)
+	seqParts   int      // parts those sequences have produced
+}
+
+// seqOf builds the iter.Seq of a `snippets` term (see Snip.Seq)
+func seqOf(kind string, parts []snippet.Snippet, rec *recorder) snippet.Snippets {
+	pass := func() {
+		if rec != nil {
+			rec.seqPasses++
+		}
+	}
+	part := func() {
+		if rec != nil {
+			rec.seqParts++
+		}
+	}
+	switch kind {
+	case "chan":
+		ch := make(chan snippet.Snippet, len(parts))
+		for _, p := range parts {
+			ch <- p
+		}
+		close(ch)
+		return func(yield func(snippet.Snippet) bool) {
+			pass()
+			for p := range ch {
+				part()
+				if !yield(p) {
+					return
+				}
+			}
+		}
+	case "once":
+		used := false
+		return func(yield func(snippet.Snippet) bool) {
+			pass()
+			if used {
+				return
+			}
+			used = true
+			for _, p := range parts {
+				part()
+				if !yield(p) {
+					return
+				}
+			}
+		}
+	case "counter":
+		n := 0
+		return func(yield func(snippet.Snippet) bool) {
+			pass()
+			for _, p := range parts {
+				n++
+				part()
+				if !yield(snippet.Block(strconv.Itoa(n)+":")) || !yield(p) {
+					return
+				}
+			}
+		}
+	}
+	return func(yield func(snippet.Snippet) bool) {
+		for _, p := range parts {
+			if !yield(p) {
+				return
+			}
+		}
+	}
+}
+
+// modelParts: the parts one pass over the sequence of a `snippets` term yields (what model and specification are given)
+func modelParts(s *Snip) []Snip {
+	if s.Seq != "counter" {
+		return s.L
+	}
+	var l []Snip
+	for i := range s.L {
+		l = append(l, block(strconv.Itoa(i+1)+":"), s.L[i])
+	}
+	return l
+}
+
+// normalizeSeq: a sequence that is not re-iterable has ONE pass, so "the rendering of the argument" is defined once only.
+// A `snippets` term keeps its Seq only where the term is rendered at most once: below the root, as a part of Snippets /
+// Fragments, as a Sprintf argument (the cursor hands out each argument once), and as an argument of T bound to a name N
+// such that "@N" occurs at most once in the format (an upper bound of the number of placeholders named N, for any format).
+// Everywhere else (a placeholder repeated, shrinking candidates that repeat one) it becomes the slice of its parts.
+func normalizeSeq(s *Snip, mult int) {
+	switch s.K {
+	case "t":
+		for i := range s.Args {
+			if s.Args[i].S != nil {
+				m := mult * strings.Count(string(s.S), "@"+s.Args[i].N)
+				normalizeSeq(s.Args[i].S, min(m, 2))
+			}
+		}
+		for i := range s.Mut {
+			if s.Mut[i].S != nil {
+				normalizeSeq(s.Mut[i].S, mult)
+			}
+		}
+	case "sprintf":
+		for i := range s.Args {
+			if s.Args[i].S != nil {
+				normalizeSeq(s.Args[i].S, mult)
+			}
+		}
+	case "snippets":
+		if mult > 1 || (s.Seq != "chan" && s.Seq != "once" && s.Seq != "counter") {
+			s.Seq = ""
+		}
+		for i := range s.L {
+			normalizeSeq(&s.L[i], mult)
+		}
+	case "fragments":
+		for i := range s.L {
+			normalizeSeq(&s.L[i], mult)
+		}
+	}
 }
 
 type probe struct {
@@ -301,13 +427,7 @@ func buildShared(s *Snip, rec *recorder, shared snippet.Args) snippet.Snippet {
 			}
 			parts = append(parts, build(&s.L[i]))
 		}
-		return snippet.Snippets(func(yield func(snippet.Snippet) bool) {
-			for _, p := range parts {
-				if !yield(p) {
-					return
-				}
-			}
-		})
+		return seqOf(s.Seq, parts, rec)
 	case "fragments":
 		var inner snippet.Snippet
 		if len(s.L) > 0 {
@@ -433,8 +553,9 @@ func coq(s *Snip, inSprintf bool, wi *walkInfo) string {
 		return "(SDirective " + core.Hex(string(s.S)) + " " + core.CoqList(items) + ")"
 	case "snippets":
 		var items []string
-		for i := range s.L {
-			items = append(items, coq(&s.L[i], false, wi))
+		parts := modelParts(s)
+		for i := range parts {
+			items = append(items, coq(&parts[i], false, wi))
 		}
 		return "(SSnippets " + core.CoqList(items) + ")"
 	case "fragments":
@@ -460,6 +581,10 @@ type observed struct {
 	Msg     string            `json:"panic_value,omitempty"`
 	Imports map[string]string `json:"imports,omitempty"`         // ImportTracker.Imports() after the rendering
 	Probes  int               `json:"probes_rendered,omitempty"` // how many times a probe snippet of the harness was rendered
+	// sequences that are not re-iterable (Snip.Seq): passes started over them / parts they produced.  Reported, not judged:
+	// the property speaks about the text; a second pass over such a sequence shows there (a part missing, numbers shifted)
+	SeqPasses int `json:"seq_passes,omitempty"`
+	SeqParts  int `json:"seq_parts_produced,omitempty"`
 }
 
 // runLocal executes the real code on one input in THIS process (called in a supervised worker, see worker.go)
@@ -470,6 +595,7 @@ func runLocal(in json.RawMessage) core.Result {
 		res.Notes = append(res.Notes, "bad input: "+err.Error())
 		return res
 	}
+	normalizeSeq(&s, 1)
 	var out string
 	var pv any
 	var panicked bool
@@ -504,6 +630,7 @@ func runLocal(in json.RawMessage) core.Result {
 		}
 	}
 	o.Probes = rec.rendered
+	o.SeqPasses, o.SeqParts = rec.seqPasses, rec.seqParts
 	res.Observed = o
 
 	wi := &walkInfo{tags: map[string]bool{}, ctx: ctx}
@@ -649,15 +776,27 @@ func features(s *Snip) []string {
 			if s.Share {
 				set["snippets:one_args_map_for_all"] = true
 			}
+			if s.Seq != "" {
+				set["snippets:seq="+s.Seq] = true
+				if depth == 0 {
+					set["snippets:seq_at_root"] = true
+				}
+			}
 		case "fragments":
 			set["fragments"] = true
 		}
 		for i := range s.Args {
-			if s.Args[i].S != nil {
-				walk(s.Args[i].S, depth+1)
+			if c := s.Args[i].S; c != nil {
+				if c.K == "snippets" && c.Seq != "" {
+					set["snippets:seq_in="+s.K] = true
+				}
+				walk(c, depth+1)
 			}
 		}
 		for i := range s.L {
+			if c := &s.L[i]; c.K == "snippets" && c.Seq != "" {
+				set["snippets:seq_in="+s.K] = true
+			}
 			walk(&s.L[i], depth+1)
 		}
 	}
